@@ -158,7 +158,7 @@ PROPS = {
              "reads_only_when_demanded.",
         assumptions=[]),
     "C12": dict(
-        module="Flussab.Props.C12", engines=[("renumber", 2000, 40000, ""), ("renumber", 120, 300, "scale")], release=True,
+        module="Flussab.Props.C12", modules=["Flussab.Props.C12", "Flussab.Props.C12Stack"], engines=[("renumber", 2000, 40000, ""), ("renumber", 120, 300, "scale")], release=True,
         claim="Renumber::renumber_aig is modelled closely (visiting order, lit_map with polarity, input sort, "
               "const-fold order, structural hashing, code allocation, error kinds, mid-stack cycle test). Theorems for "
               "all AIGs, all 8 configs and any fuel: renumber_order (consecutive numbering, larger input first and "
@@ -168,8 +168,13 @@ PROPS = {
               "renumberAig_never_out_of_fuel, midstack_cycle_check. Tie: renumber engine compares OrderedAig, sorted "
               "lit_map and error kind; oracle = exhaustive truth tables (<= 6 vars) / 64-bit random simulation + order "
               "predicate + deep 10^5..10^6-gate chain and cycle.",
-        note="Trusted: Lean kernel, harness. Modelled not verified: the explicit-stack State/Continuation loop is a "
-             "fuelled recursion with the same path list; hash maps are association lists; truncating L::from_code casts "
+        note="The explicit-stack loop of Renumber::transfer (stack of Continuation frames, State::{Transfer, Input0, "
+             "Input1, Return}, mid-stack cycle test) is modelled literally as a small-step machine (Model/AigStack.lean) "
+             "and PROVED equal to the recursive model (Props/C12Stack.lean: renumberStack_refines, stack_transfer_"
+             "simulates for any state incl. cyclic/undefined inputs, renumberStack_never_out_of_fuel with the explicit "
+             "bound 14*gates+6 iterations per call, and the C12 theorems restated for the stack machine); the driver "
+             "executes the stack machine, so the correspondence compares the Rust loop with its literal mirror. "
+             "Trusted: Lean kernel, harness. Modelled not verified: hash maps are association lists; truncating L::from_code casts "
              "of narrow literal types, symbols and comment are not modelled. Ill-formedness only in gates unreachable "
              "under trim=true is not an error (code, model and oracle agree).",
         assumptions=["literal codes fit the literal type"]),
@@ -327,7 +332,7 @@ PROPS = {
              "generator is independent of Spec/Layout.lean).",
         assumptions=["document shorter than 2^64 - 1 bytes"]),
     "C08": dict(
-        module="Flussab.Props.C08", modules=["Flussab.Props.C08", "Flussab.Props.C08Btor2", "Flussab.Props.C08Aiger"],
+        module="Flussab.Props.C08", modules=["Flussab.Props.C08", "Flussab.Props.C08Btor2", "Flussab.Props.C08Aiger", "Flussab.Props.C08Btor2Catalogue", "Flussab.Props.C08CnfCatalogue"],
         engines=[("aiger", 4000, 150000, "corrupt+mutate+arbitrary+utf8"), ("cnf", 5000, 250000, "corrupt+mutate+arbitrary+logmut"), ("btor2", 4000, 150000, "corrupt+mutate+arbitrary"), ("btor2", 112, 480, "scale:ws_nl+ws_mix+just_err+num+sym+cmt+const+lines+ls"), ("cnf", 270, 600, "scale"), ("aiger", 40, 300, "scale:err"), ("cnf", 900, 2000, "dict"), ("btor2", 900, 2000, "dict"), ("aiger", 900, 2000, "dict")], release=True,
         claim="Range, for every input and both source kinds: cnf_error_in_range, log_error_in_range, "
               "btor2_error_in_range - a reported (line, col) satisfies 1 <= line <= nlines+1 and 1 <= col <= "
@@ -338,7 +343,13 @@ PROPS = {
               "token) is evaluated on the implementation: documents rendered with known token spans (plain and full "
               "layout), one token replaced (garbage, out-of-range, overflowing, wrap-class numeral), reported "
               "position must lie on the token, under every schedule.",
-        note="The catalogue clause is checked, not proved (C08's per-class theorems are its proved part). AIGER "
+        note="The catalogue clause is a theorem for the numeric-overflow class at document level: "
+             "btor2_overflow_error_on_token(_strict) and cnf_overflow_error_on_token (CNF/WCNF/GCNF, every literal "
+             "type, CRLF included) - replace an all-digit token of an accepted document by a digit string >= 2^64; if "
+             "the result is rejected the error is on the token's line and its column on the token (proved by a "
+             "relational WP calculus: prefix determinism inside a line + position independence; no side condition - "
+             "replacements inside comments, symbols, decimal/hex constants are accepted again). The other catalogue "
+             "classes (garbage, keywords, wrap-class numerals) are evaluated on the implementation. AIGER "
              "(Props/C08Aiger.lean): aiger_error_in_range, aag_parse_error_in_range; for binary files the and-gate "
              "block is not text - a varint byte may be 0x0A - and is the continuation of the line on which it starts: "
              "aig_gate/aig_parse_error_in_range state the range over the input with the consumed block bytes masked "
